@@ -1,4 +1,494 @@
 package main
 
-func propMain(args []string) int   { return 2 }
-func replayMain(args []string) int { return 2 }
+import (
+	"crypto/sha1"
+	"encoding/json"
+	"fmt"
+	"os"
+	"os/exec"
+	"path/filepath"
+	"sort"
+	"strconv"
+	"strings"
+	"time"
+
+	"verif/harness/cat"
+	"verif/harness/fam"
+	"verif/harness/run"
+)
+
+// Finding is a divergence attributed to the property being checked.
+type Finding struct {
+	Property string          `json:"property"`
+	Kind     string          `json:"kind"`
+	Detail   string          `json:"detail"`
+	Stage    string          `json:"stage"`
+	Source   string          `json:"source"` // cover | trace | special
+	Catalog  *cat.Catalog    `json:"catalog,omitempty"`
+	Line     json.RawMessage `json:"line,omitempty"`  // model history (cover)
+	Trace    *TraceSpecCfg   `json:"trace,omitempty"` // recorded batch (trace)
+	Index    int             `json:"index,omitempty"` // container within the batch
+	Special  json.RawMessage `json:"special,omitempty"`
+}
+
+// Report accumulates what one run of a property check did.
+type Report struct {
+	Prop     string
+	Tier     string
+	Seed     int64
+	Start    time.Time
+	Covers   []*CoverStats
+	Traces   []*TraceStats
+	Specials []*SpecialStats
+	Findings []Finding
+	Notes    map[string]int // divergences outside the projection of the property
+	Infra    []string       // infrastructure problems (exit 2)
+	NoteEx   map[string]string
+}
+
+// SpecialStats is what a property-specific stage measured.
+type SpecialStats struct {
+	Name        string                 `json:"name"`
+	Evaluations int                    `json:"evaluations"`
+	Distinct    int                    `json:"distinct_nontrivial"`
+	States      int                    `json:"states"`
+	Transitions int                    `json:"transitions"`
+	Traces      int                    `json:"traces_validated"`
+	Rule        string                 `json:"rule"`
+	Samples     []json.RawMessage      `json:"samples"`
+	Extra       map[string]interface{} `json:"extra,omitempty"`
+	Wall        float64                `json:"wall_s"`
+}
+
+func envSeed() int64 {
+	if s := os.Getenv("VERIF_SEED"); s != "" {
+		if v, err := strconv.ParseInt(s, 10, 64); err == nil {
+			return v
+		}
+	}
+	return 1
+}
+
+func propMain(args []string) int {
+	if len(args) < 1 {
+		usage()
+		return 2
+	}
+	id := args[0]
+	tier := "quick"
+	if len(args) > 1 {
+		tier = args[1]
+	}
+	if t := os.Getenv("VERIF_TIER"); t != "" && len(args) < 2 {
+		tier = t
+	}
+	def, ok := properties[id]
+	if !ok {
+		fmt.Fprintln(os.Stderr, "unknown property", id)
+		return 2
+	}
+	rep := &Report{Prop: id, Tier: tier, Seed: envSeed(), Start: time.Now(), Notes: map[string]int{}, NoteEx: map[string]string{}}
+	def.run(rep, def)
+	return rep.finish(def)
+}
+
+// take attributes the divergences of a cover stage.
+func (rep *Report) takeCover(def *propDef, st *CoverStats, cats []*cat.Catalog, err error) {
+	if st == nil {
+		rep.Infra = append(rep.Infra, fmt.Sprintf("cover stage failed: %v", err))
+		return
+	}
+	rep.Covers = append(rep.Covers, st)
+	fmt.Println(st.summary())
+	if err != nil {
+		rep.Infra = append(rep.Infra, fmt.Sprintf("cover %s: %v", st.Family, err))
+	}
+	for _, e := range st.TLC.Errors {
+		rep.Infra = append(rep.Infra, fmt.Sprintf("cover %s: TLC: %s", st.Family, e))
+	}
+	for _, e := range st.HarnessErr {
+		rep.Infra = append(rep.Infra, fmt.Sprintf("cover %s: harness: %s", st.Family, e))
+	}
+	if st.TLC.Lines != st.Histories+len(st.Crashes) {
+		rep.Infra = append(rep.Infra, fmt.Sprintf("cover %s: %d histories printed but %d replayed", st.Family, st.TLC.Lines, st.Histories))
+	}
+	for _, c := range st.Crashes {
+		// the worker process died while replaying this history
+		ml, _ := run.ParseModelLine(c.Line)
+		f := Finding{Property: rep.Prop, Kind: "processcrash", Detail: "the process died while replaying this history: " + firstLines(c.Output, 6), Stage: st.Family, Source: "cover", Line: json.RawMessage(c.Line)}
+		if ml != nil && ml.Ci >= 1 && ml.Ci <= len(cats) {
+			f.Catalog = cats[ml.Ci-1]
+		}
+		if def.claims("processcrash", f.Detail) {
+			rep.Findings = append(rep.Findings, f)
+		} else {
+			rep.note("processcrash", f.Detail)
+		}
+	}
+	for _, ex := range st.Examples {
+		if def.claims(ex.Div.Kind, ex.Div.Detail) {
+			rep.Findings = append(rep.Findings, Finding{Property: rep.Prop, Kind: ex.Div.Kind, Detail: ex.Div.Detail, Stage: st.Family,
+				Source: "cover", Catalog: cats[ex.Ci-1], Line: json.RawMessage(ex.Line)})
+		} else {
+			rep.note(ex.Div.Kind, ex.Div.Detail)
+		}
+	}
+}
+
+func (rep *Report) note(kind, detail string) {
+	rep.Notes[kind]++
+	if _, ok := rep.NoteEx[kind]; !ok {
+		rep.NoteEx[kind] = detail
+	}
+}
+
+func (rep *Report) takeTrace(def *propDef, st *TraceStats, cfg TraceSpecCfg, err error) {
+	if st == nil {
+		rep.Infra = append(rep.Infra, fmt.Sprintf("trace stage failed: %v", err))
+		return
+	}
+	rep.Traces = append(rep.Traces, st)
+	fmt.Println(st.summary())
+	if err != nil {
+		rep.Infra = append(rep.Infra, fmt.Sprintf("trace %s: %v", st.Name, err))
+	}
+	for _, e := range st.TLC.Errors {
+		rep.Infra = append(rep.Infra, fmt.Sprintf("trace %s: TLC: %s", st.Name, e))
+	}
+	for _, e := range st.HarnessErr {
+		rep.Infra = append(rep.Infra, fmt.Sprintf("trace %s: harness: %s", st.Name, e))
+	}
+	for _, e := range st.Disagree {
+		rep.Infra = append(rep.Infra, fmt.Sprintf("trace %s: %s", st.Name, e))
+	}
+	for _, c := range st.Crashes {
+		f := Finding{Property: rep.Prop, Kind: "processcrash", Detail: c, Stage: st.Name, Source: "trace", Trace: &cfg}
+		if def.claims("processcrash", c) {
+			rep.Findings = append(rep.Findings, f)
+		} else {
+			rep.note("processcrash", c)
+		}
+	}
+	for _, ex := range st.Examples {
+		if def.claims(ex.Div.Kind, ex.Div.Detail) {
+			idx := 0
+			fmt.Sscanf(ex.Rec.Cat.Note[strings.LastIndex(ex.Rec.Cat.Note, "#")+1:], "%d", &idx)
+			c := cfg
+			rep.Findings = append(rep.Findings, Finding{Property: rep.Prop, Kind: ex.Div.Kind, Detail: ex.Div.Detail, Stage: st.Name,
+				Source: "trace", Catalog: ex.Rec.Cat, Trace: &c, Index: idx})
+		} else {
+			rep.note(ex.Div.Kind, ex.Div.Detail)
+		}
+	}
+}
+
+func firstLines(s string, n int) string {
+	ls := strings.Split(s, "\n")
+	if len(ls) > n {
+		ls = ls[:n]
+	}
+	return strings.Join(ls, " | ")
+}
+
+// finish confirms findings in a fresh process, prints the verdict lines, writes the evidence
+// file and returns the exit code.
+func (rep *Report) finish(def *propDef) int {
+	root := verifRoot()
+	os.MkdirAll(filepath.Join(root, "replays"), 0o755)
+	os.MkdirAll(filepath.Join(root, "evidence"), 0o755)
+	known := loadKnown()
+	violations := 0
+	printed := map[string]bool{}
+	self, _ := os.Executable()
+	for _, f := range rep.Findings {
+		key := f.Kind + "|" + f.Detail
+		if printed[key] || violations >= 5 {
+			continue
+		}
+		printed[key] = true
+		if k := known.match(rep.Prop, f); k != "" {
+			fmt.Printf("KNOWN-FINDING: property=%s %s\n", rep.Prop, k)
+			continue
+		}
+		b, _ := json.MarshalIndent(f, "", " ")
+		sum := sha1.Sum(b)
+		path := filepath.Join(root, "replays", fmt.Sprintf("%s-%x.json", rep.Prop, sum[:6]))
+		os.WriteFile(path, b, 0o644)
+		// confirm in a fresh process before reporting
+		cmd := exec.Command(self, "replay", path)
+		out, err := cmd.CombinedOutput()
+		code := 0
+		if ee, ok := err.(*exec.ExitError); ok {
+			code = ee.ExitCode()
+		} else if err != nil {
+			code = 2
+		}
+		if code == 1 {
+			fmt.Printf("VIOLATION property=%s replay=%s\n", rep.Prop, path)
+			fmt.Printf("  %s: %s\n", f.Kind, f.Detail)
+			violations++
+		} else {
+			rep.Infra = append(rep.Infra, fmt.Sprintf("finding did not reproduce in a fresh process (exit %d): %s: %s\n%s", code, f.Kind, f.Detail, firstLines(string(out), 8)))
+			os.Remove(path)
+		}
+	}
+	var nk []string
+	for k := range rep.Notes {
+		nk = append(nk, k)
+	}
+	sort.Strings(nk)
+	for _, k := range nk {
+		fmt.Printf("NOTE: %d divergence(s) of kind %s outside the projection of %s (not this property's business), e.g. %s\n", rep.Notes[k], k, rep.Prop, firstLines(rep.NoteEx[k], 2))
+	}
+	rep.writeEvidence(def, violations)
+	for _, e := range rep.Infra {
+		fmt.Println("INFRA:", firstLines(e, 12))
+	}
+	switch {
+	case violations > 0:
+		return 1
+	case len(rep.Infra) > 0:
+		return 2
+	}
+	fmt.Printf("OK property=%s tier=%s seed=%d wall=%.1fs\n", rep.Prop, rep.Tier, rep.Seed, time.Since(rep.Start).Seconds())
+	return 0
+}
+
+func (rep *Report) writeEvidence(def *propDef, violations int) {
+	states, transitions, evals, distinct, traces := 0, 0, 0, 0, 0
+	var samples []json.RawMessage
+	var stages []map[string]interface{}
+	exhaustive := true
+	for _, c := range rep.Covers {
+		states += c.TLC.Distinct
+		transitions += c.TLC.Generated
+		evals += c.Histories
+		distinct += c.Nontrivial
+		samples = append(samples, c.Samples...)
+		stages = append(stages, map[string]interface{}{"stage": "cover:" + c.Family, "catalogs": c.Catalogs, "bounds": c.Bounds,
+			"tlc_generated": c.TLC.Generated, "tlc_distinct": c.TLC.Distinct, "tlc_depth": c.TLC.Depth, "tlc_wall_s": c.TLC.Wall,
+			"histories_replayed_on_real_code": c.Histories, "distinct_histories": c.Distinct, "nontrivial": c.Nontrivial,
+			"api_ops": c.Ops, "user_function_executions": c.Execs, "divergences": c.Divs})
+	}
+	for _, t := range rep.Traces {
+		states += t.TLC.Distinct
+		transitions += t.TLC.Generated
+		traces += t.Accepted
+		evals += t.Containers
+		distinct += t.Containers
+		samples = append(samples, t.Samples...)
+		exhaustive = false
+		stages = append(stages, map[string]interface{}{"stage": "trace:" + t.Name, "containers_recorded": t.Containers, "api_ops": t.Ops,
+			"user_function_executions": t.Execs, "trace_lines": t.TraceLines, "tlc_states": t.TLC.Distinct, "tlc_wall_s": t.TLC.Wall,
+			"predictions_compared": t.Predicted, "containers_accepted": t.Accepted, "strict_rejected_ops": t.StrictBad, "divergences": t.Divs})
+	}
+	for _, s := range rep.Specials {
+		states += s.States
+		transitions += s.Transitions
+		evals += s.Evaluations
+		distinct += s.Distinct
+		traces += s.Traces
+		samples = append(samples, s.Samples...)
+		stages = append(stages, map[string]interface{}{"stage": "special:" + s.Name, "evaluations": s.Evaluations, "distinct_nontrivial": s.Distinct,
+			"states": s.States, "transitions": s.Transitions, "rule": s.Rule, "extra": s.Extra, "wall_s": s.Wall})
+	}
+	if len(samples) > 6 {
+		samples = samples[:6]
+	}
+	if len(samples) == 0 {
+		samples = []json.RawMessage{json.RawMessage(`"no sample collected"`)}
+	}
+	ev := map[string]interface{}{
+		"property_id": rep.Prop,
+		"tier":        rep.Tier,
+		"seed":        rep.Seed,
+		"level":       "model_checking",
+		"coverage": map[string]interface{}{
+			"states":                        states,
+			"transitions":                   transitions,
+			"traces_validated_against_impl": traces + evalsCover(rep),
+			"samples":                       samples,
+			"evaluations":                   evals,
+			"distinct_nontrivial":           distinct,
+			"rule":                          "cover stages: every API-level transition TLC generates for a catalog family is printed as a history with the specification's predictions and replayed on a fresh real container (distinct = distinct operation sequences with fault plan; non-trivial = executes at least one user function or contains a rejected registration). trace stages: random catalogs/histories run on the real code, recorded, and validated by TLC against the specification (one container = one trace). " + def.rule,
+			"exhaustive":                    exhaustive && len(rep.Covers) > 0,
+			"stages":                        stages,
+			"projection":                    def.projection,
+			"notes_outside_projection":      rep.Notes,
+			"infra_problems":                rep.Infra,
+		},
+		"assumptions": append([]string{
+			"TLC explores bounded catalog families exhaustively; larger programs are covered by seeded random traces only",
+			"user functions of the harness never call back into dig and never return nil on success",
+			"group order, error text and the order of independent executions are not compared",
+		}, def.assumptions...),
+		"wall_s":     time.Since(rep.Start).Seconds(),
+		"violations": violations,
+	}
+	b, _ := json.MarshalIndent(ev, "", " ")
+	os.WriteFile(filepath.Join(verifRoot(), "evidence", rep.Prop+".json"), b, 0o644)
+}
+
+// histories of the cover stages are behaviours of the specification replayed on the
+// implementation; they count as validated when they showed no divergence at all
+func evalsCover(rep *Report) int {
+	n := 0
+	for _, c := range rep.Covers {
+		bad := 0
+		for _, v := range c.Divs {
+			bad += v
+		}
+		if bad == 0 {
+			n += c.Histories
+		}
+	}
+	return n
+}
+
+// ---------------------------------------------------------------------------------------------
+
+type knownFindings struct {
+	Open []struct {
+		Property string `json:"property"`
+		Kind     string `json:"kind"`
+		Match    string `json:"match"` // substring of the divergence detail identifying the failing history
+		What     string `json:"what"`
+	} `json:"open"`
+}
+
+func loadKnown() *knownFindings {
+	var k knownFindings
+	b, err := os.ReadFile(filepath.Join(verifRoot(), "known_findings.json"))
+	if err == nil {
+		json.Unmarshal(b, &k)
+	}
+	return &k
+}
+
+func (k *knownFindings) match(prop string, f Finding) string {
+	for _, o := range k.Open {
+		if o.Property == prop && o.Kind == f.Kind && o.Match != "" && strings.Contains(f.Detail, o.Match) {
+			return o.What
+		}
+	}
+	return ""
+}
+
+// ---------------------------------------------------------------------------------------------
+
+// replayMain re-runs a replay file in this (fresh) process: exit 1 if a divergence claimed by
+// the property shows up again, 0 if not, 2 on infrastructure problems.
+func replayMain(args []string) int {
+	if len(args) < 1 {
+		return 2
+	}
+	b, err := os.ReadFile(args[0])
+	if err != nil {
+		fmt.Println("replay:", err)
+		return 2
+	}
+	var f Finding
+	if err := json.Unmarshal(b, &f); err != nil {
+		fmt.Println("replay:", err)
+		return 2
+	}
+	def := properties[f.Property]
+	if def == nil {
+		fmt.Println("replay: unknown property", f.Property)
+		return 2
+	}
+	switch f.Source {
+	case "cover":
+		ml, err := run.ParseModelLine(string(f.Line))
+		if err != nil || f.Catalog == nil {
+			fmt.Println("replay: bad file")
+			return 2
+		}
+		if f.Kind == "processcrash" {
+			// run the history in a child so that a fatal crash is observable
+			self, _ := os.Executable()
+			dir, _ := newWorkDir("replay")
+			defer os.RemoveAll(dir)
+			catsFile, _ := writeCats(dir, []*cat.Catalog{f.Catalog})
+			ml.Ci = 1
+			lb, _ := json.Marshal(ml)
+			cmd := exec.Command(self, "worker", "--cats", catsFile)
+			cmd.Stdin = strings.NewReader(string(lb) + "\n")
+			out, err := cmd.CombinedOutput()
+			if err != nil {
+				fmt.Println("reproduced: worker died:", firstLines(string(out), 10))
+				return 1
+			}
+			return 0
+		}
+		res := run.Replay(f.Catalog, ml, run.ReplayOpts{Keep: true})
+		if res.Err != "" {
+			fmt.Println("replay: harness:", res.Err)
+			return 2
+		}
+		hit := false
+		for _, d := range res.Divs {
+			mark := " "
+			if def.claims(d.Kind, d.Detail) {
+				hit = true
+				mark = "*"
+			}
+			fmt.Printf("%s %s op=%d: %s\n", mark, d.Kind, d.Op, d.Detail)
+		}
+		fmt.Println("history (expected by the specification / observed on the real code):")
+		for i, w := range ml.Hist {
+			wb, _ := json.Marshal(w)
+			fmt.Printf("  %d want %s\n", i, wb)
+			if i < len(res.Observed) {
+				o := *res.Observed[i]
+				o.Snap = nil
+				ob, _ := json.Marshal(o)
+				fmt.Printf("  %d got  %s\n", i, ob)
+			}
+		}
+		if hit {
+			return 1
+		}
+		return 0
+	case "trace":
+		if f.Trace == nil {
+			return 2
+		}
+		cfg := *f.Trace
+		st, err := traceStageOnly(cfg, f.Index)
+		if err != nil {
+			fmt.Println("replay:", err)
+			return 2
+		}
+		if len(st.Crashes) > 0 && f.Kind == "processcrash" {
+			fmt.Println("reproduced:", st.Crashes[0])
+			return 1
+		}
+		hit := false
+		for _, ex := range st.Examples {
+			mark := " "
+			if def.claims(ex.Div.Kind, ex.Div.Detail) {
+				hit = true
+				mark = "*"
+			}
+			fmt.Printf("%s %s op=%d: %s\n", mark, ex.Div.Kind, ex.Div.Op, ex.Div.Detail)
+		}
+		if hit {
+			return 1
+		}
+		return 0
+	case "special":
+		return replaySpecial(def, &f)
+	}
+	return 2
+}
+
+// traceStageOnly validates the single container index of a batch.
+func traceStageOnly(cfg TraceSpecCfg, index int) (*TraceStats, error) {
+	one := cfg
+	one.Name = cfg.Name + "-replay"
+	st := &TraceStats{Name: one.Name, Divs: map[string]int{}}
+	return traceStageFor(one, st, index)
+}
+
+var _ = fam.Presets
